@@ -384,6 +384,88 @@ example :
     filterIgnored [d1, d2, d3] [g] (fun _ => true) = [{ d1 with sev := .ignored }, d2, d3] := by
   decide
 
+theorem suppresses_sev (g : Directive) (d : Diag) (s : Sev) :
+    g.Suppresses { d with sev := s } ↔ g.Suppresses d := by
+  unfold Directive.Suppresses; exact Iff.rfl
+
+theorem markBy_insert (pre post : List Directive) (g : Directive) (d : Diag) :
+    markBy (pre ++ g :: post) d =
+      (if g.Suppresses (markBy (pre ++ post) d) then { markBy (pre ++ post) d with sev := .ignored }
+       else markBy (pre ++ post) d) := by
+  have hmem : (∃ g' ∈ pre ++ g :: post, g'.Suppresses d) ↔
+      (g.Suppresses d ∨ ∃ g' ∈ pre ++ post, g'.Suppresses d) := by
+    constructor
+    · rintro ⟨g', hm, hs⟩
+      simp only [List.mem_append, List.mem_cons] at hm
+      rcases hm with hm | hm | hm
+      · exact Or.inr ⟨g', by simp [hm], hs⟩
+      · subst hm; exact Or.inl hs
+      · exact Or.inr ⟨g', by simp [hm], hs⟩
+    · rintro (hs | ⟨g', hm, hs⟩)
+      · exact ⟨g, by simp, hs⟩
+      · simp only [List.mem_append] at hm
+        rcases hm with hm | hm
+        · exact ⟨g', by simp [hm], hs⟩
+        · exact ⟨g', by simp [hm], hs⟩
+  unfold markBy
+  by_cases h2 : ∃ g' ∈ pre ++ post, g'.Suppresses d
+  · have h1 := hmem.2 (Or.inr h2)
+    rw [if_pos h1, if_pos h2]
+    split <;> rfl
+  · rw [if_neg h2]
+    by_cases hg : g.Suppresses d
+    · rw [if_pos (hmem.2 (Or.inl hg)), if_pos hg]
+    · have h1 : ¬ ∃ g' ∈ pre ++ g :: post, g'.Suppresses d := fun h => by
+        rcases hmem.1 h with h | h
+        · exact hg h
+        · exact h2 h
+      rw [if_neg h1, if_neg hg]
+
+/-- **C10, metamorphic form**: inserting one directive `g` anywhere into the directives of a
+package changes the fate of the incoming diagnostics in exactly one way: those that `g`
+suppresses become ignored; every other diagnostic leaves `filterIgnored` exactly as it did
+without `g`. -/
+theorem insert_directive (diags : List Diag) (pre post : List Directive) (g : Directive)
+    (allowed : String → Bool) :
+    kept diags (pre ++ g :: post) allowed =
+      (kept diags (pre ++ post) allowed).map
+        (fun d => if g.Suppresses d then { d with sev := .ignored } else d) := by
+  simp only [kept_eq, List.map_map]
+  apply List.map_congr_left
+  intro d _
+  exact markBy_insert pre post g d
+
+example :
+    let d1 : Diag := ⟨⟨"a.go", 5, 2⟩, "m", "SA4000", .error⟩
+    let d2 : Diag := ⟨⟨"a.go", 6, 2⟩, "m", "SA4000", .error⟩
+    let g : Directive := ⟨"ignore", ["sa4*", "why"], ⟨"a.go", 4, 2⟩, ⟨"a.go", 5, 2⟩⟩
+    kept [d1, d2] [g] (fun _ => true) = [{ d1 with sev := .ignored }, d2] := by decide
+
+/-- … and the only problems the insertion can add are `g`'s own: the malformed-directive
+error or the "didn't match anything" problem; the problems reported for the other directives
+stay (being useless depends on the directive itself and the incoming diagnostics only). -/
+theorem insert_directive_added (diags : List Diag) (pre post : List Directive) (g : Directive)
+    (allowed : String → Bool) (x : Diag) :
+    x ∈ added diags (pre ++ g :: post) allowed ↔
+      x ∈ added diags (pre ++ post) allowed ∨ malformedOf g = some x ∨
+        uselessOf diags allowed g = some x := by
+  simp only [added_eq, List.mem_append, List.mem_filterMap, List.mem_cons]
+  constructor
+  · rintro (⟨g', hm | hm | hm, h⟩ | ⟨g', hm | hm | hm, h⟩)
+    · exact Or.inl (Or.inl ⟨g', Or.inl hm, h⟩)
+    · subst hm; exact Or.inr (Or.inl h)
+    · exact Or.inl (Or.inl ⟨g', Or.inr hm, h⟩)
+    · exact Or.inl (Or.inr ⟨g', Or.inl hm, h⟩)
+    · subst hm; exact Or.inr (Or.inr h)
+    · exact Or.inl (Or.inr ⟨g', Or.inr hm, h⟩)
+  · rintro ((⟨g', hm | hm, h⟩ | ⟨g', hm | hm, h⟩) | h | h)
+    · exact Or.inl ⟨g', Or.inl hm, h⟩
+    · exact Or.inl ⟨g', Or.inr (Or.inr hm), h⟩
+    · exact Or.inr ⟨g', Or.inl hm, h⟩
+    · exact Or.inr ⟨g', Or.inr (Or.inr hm), h⟩
+    · exact Or.inl ⟨g, Or.inr (Or.inl rfl), h⟩
+    · exact Or.inr ⟨g, Or.inr (Or.inl rfl), h⟩
+
 /-- **C10, a directive without a reason is an error and suppresses nothing**: a directive
 `ignore`/`file-ignore` with fewer than two fields yields a `compile` error at the position
 of the node it is attached to, suppresses no diagnostic, is never reported as useless, and
